@@ -710,6 +710,9 @@ func (s *sim) observe(H int64) bool {
 		}
 		v.power = sv.Tokens.Quo(sdkmath.NewInt(1_000_000)).Int64() // consensus power = tokens / 10^6, truncated
 		v.status = sv.Status
+		if v.status != stakingtypes.Bonded {
+			v.power = 0 // a validator outside the active set holds no bonded power
+		}
 		o[i] = obs{jailed: sv.Jailed, until: info.JailedUntil}
 		wasUnjailed := !v.jailed || v.unjailedInBl
 		o[i].jailEvent = sv.Jailed && (wasUnjailed || !info.JailedUntil.Equal(v.jailedUnt))
@@ -973,7 +976,7 @@ func runHistory(c fw.Case, tier string, rec *fw.Recorder) {
 	var cp caseParams
 	c.Decode(&cp)
 	rng := c.Rand()
-	p := mkPlan(cp.Kind, cp.Blocks, tier, rng)
+	p := mkPlan(cp.Kind, cp.Variant, cp.Blocks, tier, rng)
 	s := newSim(p, c.Seed, rec, rng)
 	defer s.c.Close()
 	for _, v := range s.vals {
